@@ -5,7 +5,7 @@
    every theorem below is re-checked against what the code says today. *)
 From FRP Require Import Model.Literals Model.CfgMsg Model.CfgWire Model.Validate
   Model.FlagsCheck Model.Template Proofs.CfgMsgProofs Proofs.ValidateProofs Proofs.LiteralsProofs Proofs.FlagsProofs
-  Proofs.TemplateProofs Model.StrictLoad Proofs.StrictLoadProofs gen.GenMsg gen.GenCfgMsg gen.GenFlags gen.GenLoadShape Golden.GoldenFlags.
+  Proofs.TemplateProofs Model.ValidateSections Proofs.ValidateSectionsProofs Model.StrictLoad Proofs.StrictLoadProofs gen.GenMsg gen.GenCfgMsg gen.GenFlags gen.GenLoadShape Golden.GoldenFlags.
 Open Scope Z_scope.
 
 (* ---- the registration message loses nothing the server acts on ---- *)
@@ -167,6 +167,39 @@ Theorem C18_validate_port_range : forall p, val_port p = true <-> 0 <= p <= 6553
 Proof. exact val_port_range. Qed.
 Print Assumptions C18_validate_port_range.
 
+(* Server configurations accepted by ValidateServerConfig have every port that function range-checks
+   (webServer.port, bindPort, kcpBindPort, quicBindPort, vhostHTTPPort, vhostHTTPSPort, tcpmuxHTTPConnectPort)
+   in 0..65535 — negative values included — and a complete webServer.tls block *)
+Theorem C18_server_validated_ports_in_range : forall c,
+  vs_server_ok c = true -> forall name p, In (name, p) (vs_server_ports c) -> 0 <= p <= 65535.
+Proof. exact server_validated_ports_in_range. Qed.
+Print Assumptions C18_server_validated_ports_in_range.
+
+Theorem C18_client_validated_ports_in_range : forall c,
+  vs_client_ok c = true -> forall name p, In (name, p) (vs_client_ports c) -> 0 <= p <= 65535.
+Proof. exact client_validated_ports_in_range. Qed.
+Print Assumptions C18_client_validated_ports_in_range.
+
+Theorem C18_web_server_section_valid : forall w,
+  vs_web_server_ok w = true ->
+  0 <= WebServerConfig_Port w <= 65535 /\
+  forall t, WebServerConfig_TLS w = Some t -> TLSConfig_CertFile t <> [] /\ TLSConfig_KeyFile t <> [].
+Proof. exact (fun w H => conj (vs_web_server_port w H) (fun t => vs_web_server_tls w t H)). Qed.
+Print Assumptions C18_web_server_section_valid.
+
+(* Reflective, over today's struct declarations (gen/GenCfgMsg.v): EVERY int field whose name ends in "Port"
+   of the server section, the client common section, the three visitor types and every registered proxy
+   type is on exactly one of the two pinned lists — range-checked by validation (the theorems above and
+   C18_validated_ports_in_range speak about exactly these) or recorded as not range-checked by the
+   validation layer — and the lists name existing fields only.  A new port field breaks this obligation
+   until it is classified. *)
+Theorem C18_port_fields_classified :
+  (forall l, In l vs_port_leaves ->
+     (In l vs_checked_ports /\ ~ In l vs_unchecked_ports) \/ (In l vs_unchecked_ports /\ ~ In l vs_checked_ports)) /\
+  (forall g, In g vs_checked_ports \/ In g vs_unchecked_ports -> In g vs_port_leaves).
+Proof. exact (ports_classified_sound (eq_refl true <: vs_ports_classified = true)). Qed.
+Print Assumptions C18_port_fields_classified.
+
 (* a proxy accepted by client-side validation that forwards to a local port (no plugin) has that
    port in 0..65535 *)
 Theorem C18_validated_ports_in_range : forall ann_ok plugin_ok pc,
@@ -316,3 +349,9 @@ Example C18_example_env :
   env_build [hx "413d31"; hx "6e6f6571"; hx "544f4b3d6332566a636d56303d3d"; hx "453d"; hx "463d3d78"] =
   [(hx "46", hx "3d78"); (hx "45", []); (hx "544f4b", hx "6332566a636d56303d3d"); (hx "41", hx "31")].
 Proof. vm_compute. reflexivity. Qed.
+
+Example C18_example_negative_web_port :
+  vs_web_server_ok (set_WebServerConfig_Port (-1) zero_WebServerConfig) = false /\
+  vs_web_server_ok (set_WebServerConfig_Port 0 zero_WebServerConfig) = true /\
+  vs_web_server_ok (set_WebServerConfig_Port 65536 zero_WebServerConfig) = false.
+Proof. vm_compute. repeat split. Qed.
